@@ -29,13 +29,13 @@ def parseLine (d : DState) (line : String) : Except String DState :=
     | "CI" => match run instMsg rest with
       | some m => .ok { d with pend := { p with call := some (.inst m) } }
       | none => bad
-    | "CX" | "CP" =>
+    | "CX" | "CP" | "CT" =>
       match run (do
           let sender ← str
           let funds ← list coin
           let m ← execMsg
           pure ({ sender, funds, msg := m } : Call)) rest with
-      | some c => .ok { d with pend := { p with call := some (if tag == "CX" then .exec c else .probe c) } }
+      | some c => .ok { d with pend := { p with call := some (if tag == "CX" then .exec c else if tag == "CT" then .attempt c else .probe c) } }
       | none => bad
     | "CM" => match run migMsg rest with
       | some m => .ok { d with pend := { p with call := some (.mig m) } }
